@@ -10,3 +10,5 @@ import SecsModel.Props.C04
 #print axioms SecsModel.Props.C04.prefix_monotone
 #print axioms SecsModel.Props.C04.prefix_monotone_chunks
 #print axioms SecsModel.Props.C04.segmentation_independent
+#print axioms SecsModel.Props.C04.on_data_no_lost_wakeup
+#print axioms SecsModel.Props.C04.swapped_order_loses_wakeup
